@@ -30,6 +30,8 @@ type Obligation struct {
 	File    string
 	AllRes  []SolverResult
 	Axioms  []string
+	FindingHyp *Term // negated characteristic predicate of a listed known finding
+	retried bool
 }
 
 func (o *Obligation) FullName() string { return o.Func + "#" + o.Name }
@@ -55,6 +57,8 @@ type Exec struct {
 	inInit     bool
 	initHeaps  map[string]*Term
 	initFacts  []*Term
+
+	Findings   map[string]*Finding
 
 	// per-function run
 	cur         *funcRun
@@ -342,10 +346,17 @@ func (ex *Exec) oblige(st *State, class, name string, goal *Term, pos token.Pos,
 	if len(st.frames) > 1 {
 		via = ex.FuncKey(st.top().fn)
 	}
-	ex.cur.obls = append(ex.cur.obls, &Obligation{
+	o := &Obligation{
 		Func: ex.cur.key, Name: name, Class: class, Hyps: append([]*Term(nil), st.pc...), Goal: goal,
 		Pos: ex.posString(pos), Via: via, Detail: detail,
-	})
+	}
+	if f := ex.Findings[shortObl(o.FullName())]; f != nil {
+		o.FindingHyp = False
+		if f.whenExpr != nil {
+			o.FindingHyp = Not(ex.evalBool(st, f.whenExpr, ex.contractEnv(st, nil), &Clause{File: "known_findings.txt"}))
+		}
+	}
+	ex.cur.obls = append(ex.cur.obls, o)
 }
 
 func (ex *Exec) posString(p token.Pos) string {
@@ -768,6 +779,7 @@ func (ex *Exec) symbolicValue(st *State, t types.Type, name string, depth int) V
 		if st.alloc0 != nil {
 			st.assume(Lt(s.Ref, st.alloc0))
 		}
+		ex.assumeRowTyping(st, s)
 		return s
 	case *types.Pointer:
 		if depth > 3 {
@@ -883,4 +895,23 @@ func (ex *Exec) modelInvariant(t types.Type, vs *VStruct) *Term {
 		return Le(IntLit(0), vs.Fields[1].(*Term))
 	}
 	return True
+}
+
+// assumeRowTyping: every element of the row of a symbolic slice is within the range of
+// its Go element type (type safety of the heap), as a quantified fact so that it is
+// available under binders.
+func (ex *Exec) assumeRowTyping(st *State, s *VSlice) {
+	leaves, err := ex.flattenType(s.Elem)
+	if err != nil {
+		return
+	}
+	for _, lf := range leaves {
+		if lf.T == nil || lf.Sort != SInt {
+			continue
+		}
+		key := heapKey(s.Elem, lf)
+		h := st.heap(key, HeapOf(lf.Sort))
+		i := Var("i!rt", SInt)
+		st.assume(Forall([]*Term{i}, rangeFact(lf.T, Select(Select(h, s.Ref), i))))
+	}
 }
